@@ -145,6 +145,10 @@ V_ATOMS = [
     ('eq', 1), ('eq', 'a'), ('eq', None),
     ('inst', int), ('inst', uc.UA),
     ('sub', int), ('sub', uc.UA),
+    # singletons that *equal* other objects (0 == False, 1 == True, 1.0 == True): equality is not identity.
+    # (IsEqual[...] is memoised by equality of its argument, so IsEqual[1] above *is* IsEqual[True]; False has
+    # no equal sibling among the atoms and is therefore built as written)
+    ('eq', False), ('eq', True),
 ]
 
 
